@@ -127,6 +127,8 @@ class Inliner:
         self.new = {q: v for q, v in self.defs.items() if q not in vocabulary and not (q.split('.')[-1].startswith('__') and q.endswith('__'))}
         self.inl = {q: v for q, v in self.new.items() if _inlinable(v[2])}
         self.gen_helpers = {}
+        self.tail_gen_helpers = {}
+        self.eager_prefix = {}
         for q_, (m_, c_, f_) in self.new.items():
             if q_ in self.inl:
                 continue
@@ -140,6 +142,10 @@ class Inliner:
             # a bare `return` inside the helper would end the caller too: only helpers without return
             if is_gen and simple and not rec and not rets and not nested:
                 self.gen_helpers[q_] = (m_, c_, f_)
+            # in tail position (`return helper(...)` as the last statement of a non-generator wrapper) a bare return of the helper
+            # ends the request just as it would end the wrapper's generator
+            if is_gen and simple and not rec and not nested and all(r_.value is None for r_ in rets):
+                self.tail_gen_helpers[q_] = (m_, c_, f_)
         self.counter = 0
         self.inlined_sites = 0
         self.report = []
@@ -315,6 +321,37 @@ class Inliner:
         self.report.append('%s (generator) inlined at line %d' % (q, call.lineno))
         return pre_stmts + body
 
+    def _inline_tail_generator(self, q, mod, cls, fn):
+        """a non-generator function that ends with `return <new generator helper>(...)` is the request split into an eager prefix and
+        the generator proper: the helper's body is put back; the statements of the prefix are remembered (they run at creation time)"""
+        if not fn.body or any(isinstance(x, (ast.Yield, ast.YieldFrom)) for x in ast.walk(fn)):
+            return
+        last = fn.body[-1]
+        if not (isinstance(last, ast.Return) and isinstance(last.value, ast.Call)):
+            return
+        if any(isinstance(x, ast.Return) and x is not last for x in ast.walk(fn)):
+            return
+        call = last.value
+        f = call.func
+        hq = None
+        if isinstance(f, ast.Attribute) and isinstance(f.value, ast.Name) and cls is not None and f.value.id in ('self', cls.name):
+            hq = '%s.%s' % (cls.name, f.attr)
+        elif isinstance(f, ast.Name):
+            hq = '%s:%s' % (mod, f.id)
+        if hq not in self.tail_gen_helpers or hq == q:
+            return
+        saved = self.gen_helpers
+        self.gen_helpers = self.tail_gen_helpers
+        try:
+            r = self.expand_generator(call, hq)
+        finally:
+            self.gen_helpers = saved
+        if r is None:
+            return
+        self.eager_prefix[q] = [copy.deepcopy(s_) for s_ in fn.body[:-1] if not (isinstance(s_, ast.Expr) and isinstance(s_.value, ast.Constant))]
+        fn.body = fn.body[:-1] + r
+        self._tail_inlined = getattr(self, '_tail_inlined', set()) | {hq}
+
     def rewrite_block(self, stmts, mod, cls):
         out = []
         for s in stmts:
@@ -440,13 +477,14 @@ class Inliner:
             if q in self.inl:
                 continue
             self._inline_closures(q, mod, cls, fn)
+            self._inline_tail_generator(q, mod, cls, fn)
             fn.body = self.rewrite_block(fn.body, mod, cls)
             # nested functions of vocabulary functions
             for sub in ast.walk(fn):
                 if isinstance(sub, ast.FunctionDef) and sub is not fn:
                     sub.body = self.rewrite_block(sub.body, mod, cls)
         # drop helpers that are no longer called anywhere
-        for q, (mod, cls, fn) in list(self.inl.items()) + list(self.gen_helpers.items()):
+        for q, (mod, cls, fn) in list(self.inl.items()) + list(self.gen_helpers.items()) + [(k_, v_) for k_, v_ in self.tail_gen_helpers.items() if k_ not in self.gen_helpers]:
             still = False
             for m2, tree in self.modules.items():
                 for c in ast.walk(tree):
